@@ -478,7 +478,10 @@ pub struct Scratch {
 
 impl Scratch {
     pub fn new(tag: &str) -> Scratch {
-        let base = if Path::new("/dev/shm").is_dir() {
+        // children of a parent engine put their scratch inside the parent's (which removes it)
+        let base = if let Ok(b) = std::env::var("VERIF_SCRATCH_BASE") {
+            PathBuf::from(b)
+        } else if Path::new("/dev/shm").is_dir() {
             PathBuf::from("/dev/shm")
         } else {
             std::env::temp_dir()
